@@ -67,10 +67,13 @@ class InteractiveParser:
         return self.copy()
 
     def copy(self, deepcopy_values=True):
+        parser_state = self.parser_state.copy(deepcopy_values=deepcopy_values)
+        # The copied state has to read from the copied lexer, or resume_parse() would advance the lexer of the original
+        parser_state.lexer = copy(self.lexer_thread)
         return type(self)(
             self.parser,
-            self.parser_state.copy(deepcopy_values=deepcopy_values),
-            copy(self.lexer_thread),
+            parser_state,
+            parser_state.lexer,
         )
 
     def __eq__(self, other):
